@@ -17,7 +17,7 @@ type Program struct {
 	ModPath string
 	Pkgs    []*packages.Package
 	Prog    *ssa.Program
-	SSAPkgs map[string]*ssa.Package // by import path
+	SSAPkgs map[string]*ssa.Package  // by import path
 	Funcs   map[string]*ssa.Function // "pkgpath::name"
 }
 
